@@ -1,0 +1,18 @@
+// Copyright 2026 The OWASP Coraza contributors
+// SPDX-License-Identifier: Apache-2.0
+
+//go:build verif
+
+package variables
+
+import "sort"
+
+// VerifNames lists the known variable names (sorted), for the verification harness.
+func VerifNames() []string {
+	out := make([]string, 0, len(rulemapRev))
+	for k := range rulemapRev {
+		out = append(out, k)
+	}
+	sort.Strings(out)
+	return out
+}
